@@ -30,7 +30,7 @@ def sortStrings (l : List String) : List String := l.foldr insertSorted []
 def boolStr (b : Bool) : String := if b then "true" else "false"
 
 def itemStr (it : RegItem) : String :=
-  s!"{it.name}:{it.tag}:{boolStr it.isFunction}:{boolStr it.hasTL1}:{boolStr it.hasTL2}"
+  s!"{it.name}:{it.tag}:{boolStr it.isFunction}:{boolStr it.hasTL1}:{boolStr it.hasTL2}:{it.ann % 64}"
 
 /-- name and tag a freshly created object reports: a union reports its first variant -/
 def objNameTag (d : Desc) (it : RegItem) : String :=
